@@ -368,7 +368,7 @@ def output_types(draw, u, lt, inner=False):
         return ["opt", t, "std"] if k == "optbox" else t
     if k in ("ref", "optref"):
         o = draw(st.sampled_from(u.opaques))
-        mut = False
+        mut = p.get("mut_ref_returns", True) and draw(st.integers(0, 3)) == 0       # `&'a mut Opaque` / `Option<&'a mut Opaque>`
         t = ["ref", lt, mut, o["name"], [lt for _ in o.get("lifetimes", [])]]
         return ["opt", t, "std"] if k == "optref" else t
     if k == "slice":
@@ -725,3 +725,57 @@ def add_trait(draw, prog, name="DvTrait"):
     ir.default_order(mod)
 
 
+def add_special_methods(draw, prog, rate=3):
+    """the documented special-method attributes (`auto`: wherever the backend supports them): getter/setter pairs (instance or
+    static, in either declaration order), constructor / named_constructor, stringifier, comparison, indexer, iterator/iterable.
+    Methods are added, existing ones are not relabelled. Returns the list of placed kinds (for labels)."""
+    placed = []
+    n = [0]
+
+    def m(name, self_, params, ret, attr):
+        return {"name": name, "attrs": ["#[diplomat::attr(auto, %s)]" % attr], "lifetimes": [], "self": self_, "params": params, "ret": ret}
+
+    for mod in prog["modules"]:
+        for it in mod["items"]:
+            if it.get("out") or it.get("lifetimes") or (it["kind"] == "struct" and not it["fields"]) or draw(st.integers(0, rate - 1)) != 0:
+                continue
+            n[0] += 1
+            k = n[0]
+            ms = []
+            kind = it["kind"]
+            ref_self = ["ref", None, False] if kind == "opaque" else ["val"]
+            mut_self = ["ref", None, True] if kind == "opaque" else None
+            what = draw(st.sampled_from(["prop", "prop", "static-prop", "ctor", "stringifier", "comparison", "indexer", "iterator"]))
+            if what == "static-prop" and kind == "opaque" and prog.get("_steer", {}).get("no_static_props_on_opaque"):
+                what = "prop"       # nanobind known finding (C15): steered, probed separately
+            pt = ["prim", draw(st.sampled_from(["u8", "i32", "f64", "bool", "u64"]))]
+            if what == "prop":
+                g = m("dv_get_p%d" % k, ref_self, [], pt, 'getter = "dv_p%d"' % k)
+                pair = [g]
+                if mut_self is not None or kind == "enum":
+                    pair.append(m("dv_set_p%d" % k, mut_self or ["val"], [["v", pt, []]], None, 'setter = "dv_p%d"' % k))
+                ms = list(draw(st.permutations(pair)))
+            elif what == "static-prop":
+                pair = [m("dv_sget_p%d" % k, None, [], pt, 'getter = "dv_sp%d"' % k), m("dv_sset_p%d" % k, None, [["v", pt, []]], None, 'setter = "dv_sp%d"' % k)]
+                ms = list(draw(st.permutations(pair)))[:draw(st.integers(1, 2))]
+            elif what == "ctor":
+                ret = ["box", it["name"], []] if kind == "opaque" else ([kind, it["name"], []] if kind == "struct" else ["enum", it["name"]])
+                ms = [m("dv_ctor%d" % k, None, [["v", pt, []]], ret, draw(st.sampled_from(["constructor", 'named_constructor = "dv_named%d"' % k])))]
+                if draw(st.booleans()):
+                    ms.append(m("dv_ctor%db" % k, None, [], ["result", ret, ["unit"], "std"], 'named_constructor = "dv_fallible%d"' % k))
+            elif what == "stringifier":
+                ms = [m("dv_to_string%d" % k, ref_self, [["w", ["write"], []]], None, "stringifier")]
+            elif what == "comparison" and kind in ("opaque", "struct"):
+                other = ["ref", None, False, it["name"], []] if kind == "opaque" else ["struct", it["name"], []]
+                ms = [m("dv_cmp%d" % k, ref_self, [["other", other, []]], ["ordering"], "comparison")]
+            elif what == "indexer" and kind == "opaque":
+                ms = [m("dv_index%d" % k, ref_self, [["i", ["prim", "usize"], []]], ["opt", pt, "std"], "indexer")]
+            elif what == "iterator" and kind == "opaque":
+                ms = [m("dv_next%d" % k, ["ref", None, True], [], ["opt", pt, "std"], "iterator")]
+            if ms:
+                it["impls"].append({"attrs": [], "methods": ms})
+                placed.append("special:" + what)
+        default_order_keep = None
+    for mod in prog["modules"]:
+        ir.default_order(mod)
+    return placed
